@@ -531,6 +531,13 @@ class PMGRLaunchingComponent(rpu.ClientComponent):
                     self._pilots[pid] = pilot
                     self._prof.prof('submission_stop', uid=pid)
 
+            # kill requests which arrived while the pilots were prepared and
+            # staged found them unknown and were only remembered
+            late = [p['uid'] for p in pilots if p['uid'] in self._cancelled]
+
+        if late:
+            self._kill_pilots(late)
+
 
     # --------------------------------------------------------------------------
     #
